@@ -475,17 +475,18 @@ def get_paragraph_data(text, remove_pgp_signature=False):
         items.insert(0, ('unknown', unixfrom))
 
     data = {}
+    values_by_name = {}
     for name, value in items:
         # we do not preserve case: debian field names are case-insensitive AND
         # we use a normalized lowercase version throughout.
         name = name.lower().strip()
         value = value.strip()
-        if name in data:
-            existing_values = data.get(name, '').splitlines()
-            if value not in existing_values:
-                existing_values.append(value)
-            value = '\n'.join(existing_values)
-        data[name] = value
+        # a repeated name keeps each distinct value once, whole: a multi-line
+        # value is one value, not one value per line
+        values = values_by_name.setdefault(name, [])
+        if value and value not in values:
+            values.append(value)
+        data[name] = '\n'.join(values)
 
     return data
 
